@@ -125,6 +125,10 @@ class ClassParser(BaseParser):
         if self.local_namespace:
             # local names shadow the module's
             dic.update(self.local_namespace)
+        for key, val in vars(self.obj).items():
+            # a class declared in the class body is a name of its annotations too (shadowing the ones outside)
+            if isinstance(val, type) and not key.startswith("__"):
+                dic[key] = val
         dic[name] = self.obj
         # !IMPORTANT: we need to override __name__ for current obj
         # cause in the locals, same name may be the different object, we should be careful about that
